@@ -484,6 +484,49 @@ def read_form_fields_unit():
                clause='NOT: ' + clause, solver_output=(bad or ('', 'vacuous'))[1], witness={'detail': (bad or ('', 'vacuous'))[1]}, replay={'reproduced': False})]
 
 
+def filler_catalogue_unit():
+    """PDFFiller.__init__ establishes, for THIS filler, the map form name -> class of exactly the catalogue it was given - whatever fillers
+    were built before it in the same process (class-level or module-level state would let an earlier year's classes re-type a later
+    solution).  Ground evaluation of the real constructor and _add_form on two one-form catalogues with the same form name."""
+    from habutax import pdf_filler
+    import configparser
+    fid = 'pdf_filler.py:PDFFiller.__init__'
+
+    def cat(tag):
+        class StubForm(object):
+            form_name = 'stub'
+            year_tag = tag
+
+            def __init__(self, instance=None):
+                self._instance = instance
+
+            def fields(self):
+                return []
+
+            def name(self):
+                return 'stub'
+        return [StubForm]
+    seen = []
+    for tag in ('first', 'second', 'third'):
+        sol = configparser.ConfigParser()
+        sol.add_section('stub')
+        forms_ = cat(tag)
+        p = pdf_filler.PDFFiller(sol, forms_, os.devnull)
+        try:
+            p._add_form('stub')
+            seen.append((tag, getattr(type(p.forms[-1]), 'year_tag', None), p._form_map.get('stub') is forms_[0]))
+        except BaseException as ex:
+            seen.append((tag, f'raised {type(ex).__name__}', False))
+    ok = all(t == got and same for t, got, same in seen)
+    oid = 'C14/PDFFiller.__init__/interprets-with-the-catalogue-it-was-given'
+    clause = 'every filler instantiates a section with the form class of the catalogue passed to its own constructor, also when other fillers were built before it in the same process'
+    if ok:
+        return [Ob(id=oid, backend='native', bounded=True, cases=3, function=fid, clause=clause, vc=str(seen),
+                   note='bounded stand-in (three fillers built in a row in one process), not a proof: separation of state between instances is outside the executor')]
+    return [Ob(id=oid, status=oblig.REFUTED, backend='native', bounded=True, cases=3, function=fid, clause='NOT: ' + clause, witness={'catalogue_given / class_used / map_entry_is_given_class': seen},
+               replay={'reproduced': True, 'kind': 'filler-catalogue', 'runs': [list(x) for x in seen]})]
+
+
 def field_value_units():
     """The round trip is claimed for the values a solution can hold: the range of FieldType.value (exact p-decimals for a float
     line of p places).  That range is the value() contract of C12; its obligations belong to C14 as well."""
@@ -496,7 +539,7 @@ def field_value_units():
 
 
 def run(tier, seed, t0):
-    tasks = [Task('fieldvalue', field_value_units, weight=5), Task('rt', roundtrip, weight=3), Task('bf', bounded_float_roundtrip, tier, weight=3), Task('cfg', to_config_unit), Task('main', main_year),
+    tasks = [Task('fieldvalue', field_value_units, weight=5), Task('filler', filler_catalogue_unit), Task('rt', roundtrip, weight=3), Task('bf', bounded_float_roundtrip, tier, weight=3), Task('cfg', to_config_unit), Task('main', main_year),
              Task('fill', fill_pdfs_unit), Task('read', read_form_fields_unit)]
     obs = oblig.run_tasks(tasks)
     return oblig.finish('C14', tier, seed, obs, t0,
